@@ -62,7 +62,8 @@ var statusCmd = &cobra.Command{
 		var deletedFiles []string
 		for _, entry := range client.Idx.Entries {
 			filePath := string(entry.Path)
-			if _, err := os.Stat(filePath); os.IsNotExist(err) {
+			// missing as a file: not there at all, a parent that is no longer a directory, or a directory in its place
+			if info, err := os.Stat(filePath); err != nil || info.IsDir() {
 				deletedFiles = append(deletedFiles, filePath)
 			}
 		}
